@@ -258,6 +258,22 @@ CHECKS["C07"] = dict(
     technique="Coq proof (per-scope product invariant over reachable-state invariants; channel-protocol invariants) + trace-acceptance correspondence + source ties",
     design="DESIGN.md section 6 C07, section 13")
 
+CHECKS["C08"] = dict(
+    engine="coq-engine",
+    text="Coq theorems for EVERY shape, accepted trace and interleaving of the observable automaton: c08_persist_before_act (an action is "
+         "durably Running, with its sequence durably Running, with exactly the number of recorded attempts, before its plugin is entered; "
+         "each attempt's result is durable before the next attempt, the next action of the sequence or the terminal write; the released "
+         "plan equals the durable image and follows the plan's terminal write; no write moves a block, sequence or sequence action out of "
+         "a durable Completed/Failed), image_monotone(_trace), and c08_no_visible_regress(_checked): polled snapshots never show progress "
+         "going backwards, proved from an explicit read hypothesis that the check evaluates on every real trace (mon_explained). "
+         "Correspondence: real traces with a 200 us poller (profiles persist, attempts, mixed, final, cont, multi-plan) checked against "
+         "the automaton and the three monitors by vm_compute; thorough tier: every k-th Update* of small plans is made to fail in a child "
+         "process, which must exit without releasing a waiter or making a dependent invocation.",
+    note=ENGINE_NOTE + "durability below the Update* return (SQLite/WAL, fsync) is out of scope; 'write failure is fatal' is an injected-fault "
+         "sweep, not a theorem; quiescence at release is C04",
+    technique="Coq proof (product invariant automaton x monitor + reachable-state invariant; read-hypothesis lemma) + trace-acceptance correspondence on polled traces + k-th-write failure sweep",
+    design="DESIGN.md section 6 C08, section 13")
+
 PENDING_REASON = "check under construction in this session (see DESIGN.md section 12 build order); not yet claimed"
 
 
